@@ -11,7 +11,7 @@ def sparse_uw(n, m, w=None, multi=False):
     B = m + buckets + 2      # high.len() + 2
     M = m + 2
     return {
-        r'BitVector as simple_sds::ops::(Select|SelectZero|Rank)<.*>>::(select|select_zero|rank)$': 74,   # specification stubs: BV_SCAN + 2
+        r'BitVector as simple_sds::ops::(Select|SelectZero|Rank)<.*>>::(select|select_zero|rank)$': B,   # specification stubs: scan bound = high.len()
         r'sparse_vector::OneIter<.*> as std::iter::Iterator>::next$': B,
         r'sparse_vector::OneIter<.*> as std::iter::DoubleEndedIterator>::next_back$': B,
         r'SparseVector::find_zero_run$#0': 4,
